@@ -46,6 +46,7 @@ EnvelopeEvOK(e) ==
   /\ ~e.panicked /\ e.probeOK
   /\ ((e.dec1 \/ e.dec2) /\ ~e.payloadTag => EnvelopeOK(env))       \* (a tag before the claims map is left open)
   /\ e.dec1 = e.dec2                       \* both entry points agree
+  /\ e.dec3 = e.dec2                       \* ... and so does an Evidence that decoded something else before from the same buffer
   /\ (e.dec1 => e.claims)                  \* success attaches claims
   /\ (e.kind = "canonical" => e.dec1)      \* (anti-vacuity: the canonical envelope is evidence)
 Chained(e) == IF e.i = 0 THEN e.pre = EvInit ELSE e.pre = ev
